@@ -75,6 +75,9 @@ func (r *Runner) doLifecycle(s *Step, rep *Reply) bool {
 		if r.M.Pods[s.Pod] == nil {
 			id, uid := r.newPodIDs()
 			r.M.Pods[s.Pod] = &MPod{Key: s.Pod, ID: id, UID: uid, Name: "pod-" + s.Pod, NS: s.NS, QoS: s.QoS, Ann: s.Ann, Labels: s.Labels, State: StRunning}
+			if s.Name != "" {
+				r.M.Pods[s.Pod].Name = s.Name
+			}
 		}
 	case "create":
 		p := r.M.Pods[s.Pod]
@@ -287,6 +290,44 @@ func RunRestartHistory(o HistOpts) *HistResult {
 				}
 			}
 			r.Do(s)
+		}
+		if rng.Chance(1, 4) {
+			// A pod re-created under the same name while the plugin was down, its old sandbox still terminating: the
+			// runtime then lists two live containers with the same namespace/pod/container name and different IDs.
+			var cands []string
+			for _, k := range r.M.PodKeys() {
+				if p := r.M.Pods[k]; p.State == StRunning && !strings.HasSuffix(k, "r") {
+					for _, c := range r.M.PodCtrs(k) {
+						if c.Live() {
+							cands = append(cands, k)
+							break
+						}
+					}
+				}
+			}
+			if len(cands) > 0 {
+				k := sysgen.Pick(rng, cands)
+				old := r.M.Pods[k]
+				nk := k + "r"
+				if r.M.Pods[nk] == nil {
+					r.Do(&Step{Op: "runpod", Pod: nk, Name: old.Name, NS: old.NS, QoS: old.QoS, Ann: old.Ann, Labels: old.Labels})
+					for _, c := range r.M.PodCtrs(k) {
+						if !c.Live() {
+							continue
+						}
+						cs := &Step{Op: "create", Pod: nk, Ctr: c.Key + "r", Name: c.Name}
+						if old.QoS != "BestEffort" {
+							cs.Req, cs.Lim, cs.MemLim, cs.MemReq = 100, 100, 64<<20, 64<<20
+							if old.QoS == "Burstable" {
+								cs.Lim = 200
+							}
+						}
+						r.Do(cs)
+						r.Do(&Step{Op: "start", Pod: nk, Ctr: cs.Ctr})
+					}
+					r.Count("c11_same_name_pod_recreated")
+				}
+			}
 		}
 		r.Do(&Step{Op: "up", Stale: rng.Chance(1, 2)})
 	}
